@@ -22,10 +22,10 @@ import (
 
 // error kinds a fault can take
 const (
-	kGeneric = 1 << iota // errors.New(...)
-	kNotFound            // fosite.ErrNotFound
-	kInactive            // fosite.ErrInactiveToken
-	kSerial              // fosite.ErrSerializationFailure
+	kGeneric  = 1 << iota // errors.New(...)
+	kNotFound             // fosite.ErrNotFound
+	kInactive             // fosite.ErrInactiveToken
+	kSerial               // fosite.ErrSerializationFailure
 )
 
 const (
